@@ -16,7 +16,8 @@ fn track_ok(t: &mut FuelTracker, unit: bool) -> bool {
 // @verif props=C13 tier=quick cap=400 group=core fns=FuelTracker::{new,track,remaining,consumed}
 /// For EVERY budget b in u64 and every sequence of <=5 zero-/unit-cost instructions: the outcome of each
 /// step is a threshold function of b (b > cost so far => Ok, b < cost => out of fuel, once out of fuel always
-/// out of fuel), and while successful consumed() == cost so far and consumed() + remaining() == b.
+/// out of fuel), while successful consumed() == cost so far, and ALWAYS (also after running out of fuel and
+/// attempting more instructions) consumed() + remaining() == b.
 #[kani::proof]
 #[kani::unwind(7)]
 fn c13_fuel_threshold_and_levels() {
@@ -52,6 +53,9 @@ fn c13_fuel_threshold_and_levels() {
         } else if unit {
             assert!(!ok);
         }
+        // the reported levels ALWAYS add up to the budget - also after the render ran out of fuel and
+        // further instructions are attempted on the same state (State::call_macro after a failed render)
+        assert!(t.consumed() as u128 + t.remaining() as u128 == b as u128);
         i += 1;
     }
     kani::cover!(failed && b > 2);
